@@ -26,10 +26,15 @@ pub fn key_nonce_violations(e: &Exec) -> Vec<(String, String)> {
     let mut out = vec![];
     for s in SIDES {
         for ev in e.logs[s.idx()].cipher_since(0) {
-            if ev.op != CipherOp::Encrypt {
-                continue;
-            }
-            let Some(k) = ev.key else { continue };
+            // REKEY is an encryption of 32 zero bytes under the *old* key and the reserved nonce
+            let (k, data) = match ev.op {
+                CipherOp::Encrypt => (ev.key, ev.data.clone()),
+                CipherOp::Rekey => (ev.prev_key, vec![0u8; 32]),
+                _ => continue,
+            };
+            let Some(k) = k else { continue };
+            let mut ev = ev.clone();
+            ev.data = data;
             match seen.get(&(k, ev.nonce)) {
                 None => {
                     seen.insert((k, ev.nonce), (ev.ad.clone(), ev.data.clone(), s, ev.obj));
@@ -106,7 +111,7 @@ fn e1_name(ctx: &Ctx, proto: &Proto, bound2: bool) {
     }
 }
 
-fn seq_spec(proto: &Proto, extra: usize, devs: usize) -> SeqSpec {
+fn seq_spec(proto: &Proto, extra: usize, devs: usize, nonce_edge: bool) -> SeqSpec {
     let cfg = c06_cfg(proto, &[], 5);
     let n = proto.n_msgs();
     let ov = overheads(proto);
@@ -149,6 +154,17 @@ fn seq_spec(proto: &Proto, extra: usize, devs: usize) -> SeqSpec {
                     a.push((Op::RekeyOut { side: s }, false));
                     a.push((Op::RekeyIn { side: s }, false));
                     a.push((Op::RekeyManual { side: s, i: Some(1), r: Some(2) }, false));
+                    // moving the sending nonce *forward* to the edge (never backward: that would be the
+                    // caller's own reuse): writes at 2^64-2 and at the reserved 2^64-1, then a rekey
+                    let ds = usize::from(!s.is_init());
+                    if nonce_edge && ab.n[ds] < u64::MAX - 1 {
+                        a.push((Op::SetSendNonce { side: s, n: u64::MAX - 1 }, true));
+                        a.push((Op::SetSendNonce { side: s, n: u64::MAX }, true));
+                    }
+                    if ab.n[ds] >= u64::MAX - 1 {
+                        a.push((Op::TWrite { side: s, plen: 5, cap: Cap::Roomy }, false));
+                        a.push((Op::TWrite { side: s, plen: 6, cap: Cap::Roomy }, false));
+                    }
                 },
                 _ => {},
             }
@@ -188,7 +204,9 @@ pub fn run(tier: Tier) -> i32 {
         }
     }
     e2.par_iter().for_each(|p| {
-        let s = seq_spec(p, extra, devs);
+        // the sending-nonce edge ops multiply the transport states: all names in thorough, the 1-2 message
+        // patterns in quick (the transport code does not depend on the pattern)
+        let s = seq_spec(p, extra, devs, !quick || p.n_msgs() <= 2);
         let r = seqmc::explore(s.clone());
         absorb(&ctx, &s, &r, &p.name);
     });
